@@ -147,6 +147,17 @@ def check(ctx):
     check_delegation(ctx, "C12-f", only={"oil_FVF", "oil_viscosity", "pressure_bubblepoint"})
     # C12-h: the bubble-point behaviour of the array forms is that of the scalar forms (array arm == scalar arm, masks
     # split at the same predicate) - shared with C11-b/c
+    # C12-i: the undersaturated compressibility that carries Bo above the bubble point is one correlation over the whole
+    # range: no partition of its inputs (a validity window, a fallback) answers with another formula - Bo would stop
+    # falling, or jump, where the two meet
+    SPQ = OIL + "oil_compressibility_undersat_Spivey"
+    if SPQ in P.functions:
+        ctx.touch(SPQ)
+        try:
+            only(run(ctx, SPQ, opaque={PBQ}), "oil_compressibility_undersat_Spivey", ctx, "C12-i")
+            ctx.ok("C12-i", SPQ + ":one correlation", P.func(SPQ).where(), "every returning partition of the undersaturated compressibility returns the same term")
+        except AnalysisError as e:
+            ctx.notes.append(f"C12-i not evaluated: {e}")
     from .c11 import check_split
 
     check_split(ctx, "C12-h", "C12-h")
